@@ -8,7 +8,7 @@ import (
 // RunDigest identifies the execution: concrete op sequence, outcomes, issued handles, final hidden shape.
 func (e *Engine) RunDigest() uint64 {
 	d := *e.log
-	d.U64(e.S.W.VerifShape())
+	d.U64(worldShape(e.S.W))
 	return d.Sum()
 }
 
